@@ -12,6 +12,7 @@ import shutil
 import tempfile
 from urllib.parse import quote
 
+from vf.budget import CpuBudgetExceeded, cpu_budget
 from vf.gen import fstree
 from vf.monitors import AuditMonitor
 
@@ -274,6 +275,21 @@ def judge(ctx, meta, listing, path, cls, tclass, target, resp, via="L0", audit_e
              sample={"path": path[:120], "spelling": cls, "target_class": tclass, "status": status, "verdict": verdict})
 
 
+# CPU seconds one request may cost before "no answer" is the verdict (a request costs well under 10 ms on the pinned
+# tree); once a no-answer has been witnessed the budget drops, so that a tree full of such requests still ends
+CPU_BUDGET = [20.0]
+
+
+def no_answer(ctx, meta, listing, path, cls):
+    import re as _re
+
+    shape = _re.sub(r"[A-Za-z0-9_-]{3,}", "W", path)[:40]
+    wit = {"path": path, "class": cls, "listing": listing, "cpu_seconds_allowed": CPU_BUDGET[0], "path_bytes": len(path)}
+    ctx.violation(f"no-answer:class={cls}:nul={'%00' in path.lower() or chr(0) in path}", f"the handler consumed the whole CPU budget on {path!r} and gave no answer (shape {shape})", wit)
+    ctx.case(("no-answer", cls), False, sample=wit)
+    CPU_BUDGET[0] = 2.0
+
+
 def run_tree(ctx, rng, idx):
     from nauyaca.server.handler import StaticFileHandler
 
@@ -293,7 +309,12 @@ def run_tree(ctx, rng, idx):
                     continue
                 audit.start()
                 try:
-                    resp = h.handle(req)
+                    with cpu_budget(CPU_BUDGET[0]):
+                        resp = h.handle(req)
+                except CpuBudgetExceeded:
+                    audit.stop()
+                    no_answer(ctx, meta, listing, path, cls)
+                    continue
                 except Exception as e:  # noqa: BLE001
                     audit.stop()
                     ctx.count("outcome", f"handler-raised:{type(e).__name__}")
@@ -404,8 +425,12 @@ def run_changing_tree(ctx, rng, idx):
                         hh = StaticFileHandler(root, enable_directory_listing=listing) if fresh else h
                         req = make_request(path)
                         try:
-                            resp = hh.handle(req)
+                            with cpu_budget(CPU_BUDGET[0]):
+                                resp = hh.handle(req)
                             status, meta_s, body = resp.status, resp.meta, resp.body
+                        except CpuBudgetExceeded:
+                            no_answer(ctx, None, listing, path, "changing-tree")
+                            continue
                         except Exception as e:  # noqa: BLE001
                             status, meta_s, body = 40, f"Server error: {e}", None
                         text = body.decode("utf-8", "replace") if isinstance(body, bytes) else (body or "")
